@@ -64,6 +64,13 @@ def make_case(ctx, rng, cid, window_prob=0.3):
     full = rng.random() < 0.15
     nulls = rng.random() < 0.3 and ambig is None
     recs = []   # (record bytes, values or None)
+    sparse = 0
+    if ambig is None and rng.random() < (0.012 if lay.kind != "lastlog" else 0.08):
+        # a sparse file: thousands of null slots before the first record (a uid-indexed lastlog on a host whose accounts
+        # start at uid 10000+ looks like this)
+        sparse = rng.choice([100, 1000, 5000, 8191, 8192, 8193, 20000, 70000])
+        nul = fsgen.null_record(lay)
+        recs.extend([(nul, None)] * sparse)
     for i, (sec, usec) in enumerate(times):
         if nulls and rng.random() < 0.3:
             recs.append((fsgen.null_record(lay), None))
@@ -103,7 +110,7 @@ def make_case(ctx, rng, cid, window_prob=0.3):
         else:
             a = x if "a" in wk else None
             b = y if "b" in wk else None
-    return dict(d=d, lay=lay, recs=recs, path=path, cont=cont, bsz=bsz, mode=mode, full=full, nulls=nulls, a=a, b=b, wk=wk, n=n, ambig=ambig)
+    return dict(d=d, lay=lay, recs=recs, path=path, cont=cont, bsz=bsz, mode=mode, full=full, nulls=nulls, a=a, b=b, wk=wk, n=n, ambig=ambig, sparse=sparse)
 
 
 def model(case):
@@ -263,6 +270,8 @@ def run_cases(ctx, s4, ncases, window_prob, prefix):
                               "%d %s records (%d bytes, also a multiple of %s's record size): %d distinct outputs in 5 runs" % (
                                   case["n"], case["lay"].name, sum(len(x) for x, _ in case["recs"]), case["ambig"], len({r.out} | set(repeat_outs))),
                               src_dir=case["d"], info={"argv": r.argv, "env": r.env})
+        if case.get("sparse"):
+            ctx.count("sparse files (100..70000 leading null records)")
         judge(ctx, case, r, prefix)
 
 
